@@ -19,8 +19,9 @@ type genNode struct {
 }
 
 type genExit struct {
-	UUID string
-	Dest int // node index or -1
+	UUID    string
+	Dest    int    // node index or -1
+	BadDest string // fault injection: a destination that is not a node of the flow (the flow no longer validates)
 }
 
 type genFlow struct {
@@ -29,6 +30,7 @@ type genFlow struct {
 	Type    string
 	Nodes   []*genNode
 	deleted bool // removed from the asset store (fault injection)
+	invalid bool // still in the store but no longer validates: reading it fails, as if it were missing (fault injection)
 }
 
 type genAssets struct {
@@ -219,6 +221,9 @@ func (ga *genAssets) JSON(voice bool) []byte {
 				ex := map[string]any{"uuid": e.UUID}
 				if e.Dest >= 0 {
 					ex["destination_uuid"] = f.Nodes[e.Dest].UUID
+				}
+				if e.BadDest != "" {
+					ex["destination_uuid"] = e.BadDest
 				}
 				exits = append(exits, ex)
 			}
